@@ -27,14 +27,71 @@ import (
 	"github.com/foxcpp/maddy/internal/verifshim/vlim"
 )
 
-// Key spelling: ip id x = 127.0.0.x, domain id d = d<d>.example ("" = 0, D<d>.EXAMPLE = 1000+d).
+// Key spelling: source addresses are ids of the table in vlim (IPv4 id x = 127.0.0.x; IPv6, several hosts of one
+// /64, IPv4-mapped, odd ones); the bucket key the code derives from each is observed on the real Group
+// (c11sKeys). Domain id d = d<d>.example ("" = 0, D<d>.EXAMPLE = 1000+d).
+func c11sV4(id int) net.IP { return net.IPv4(127, 0, byte(id/256), byte(id%256)) }
+
+var c11sKeys = vlim.NewIPKeys(c11sV4)
+
+// c11sListener makes the accepted connections look as if they came from the table address whose id the
+// client encoded in its (loopback) source address 127.0.hi.lo: IPv6 peers without IPv6 networking.
+type c11sListener struct{ net.Listener }
+
+type c11sConn struct {
+	net.Conn
+	remote net.Addr
+}
+
+func (c *c11sConn) RemoteAddr() net.Addr { return c.remote }
+
+func (l *c11sListener) Accept() (net.Conn, error) {
+	c, err := l.Listener.Accept()
+	if err != nil {
+		return nil, err
+	}
+	tcp, ok := c.RemoteAddr().(*net.TCPAddr)
+	if !ok || tcp.IP.To4() == nil {
+		return c, nil
+	}
+	v := tcp.IP.To4()
+	id := int(v[2])*256 + int(v[3])
+	return &c11sConn{Conn: c, remote: &net.TCPAddr{IP: vlim.Addr(id, c11sV4), Port: tcp.Port}}, nil
+}
+
+// c11sServe adds a listener of that kind to the endpoint; returns its port.
+func c11sServe(endp *Endpoint) (string, error) {
+	l, err := net.Listen("tcp", "127.0.0.1:0")
+	for try := 0; err != nil && try < 50; try++ { // ephemeral ports exhausted by the other cases' sockets
+		time.Sleep(20 * time.Millisecond)
+		l, err = net.Listen("tcp", "127.0.0.1:0")
+	}
+	if err != nil {
+		return "", err
+	}
+	endp.listenersWg.Add(1)
+	go func() {
+		endp.serv.Serve(&c11sListener{l}) //nolint:errcheck
+		endp.listenersWg.Done()
+	}()
+	return strconv.Itoa(l.Addr().(*net.TCPAddr).Port), nil
+}
+
+// c11sLine builds an op line: cfg, the observed key tokens of the addresses the o. ops mention, the ops.
+func c11sLine(kind string, cfg vlim.Cfg, ops []string) string {
+	var addrs []int
+	for _, o := range ops {
+		if f := strings.Split(o, "."); f[0] == "o" && len(f) > 2 {
+			a, _ := strconv.Atoi(f[2])
+			addrs = append(addrs, a)
+		}
+	}
+	return "C11 " + kind + " " + cfg.String() + " " + strings.Join(append(c11sKeys.Tokens(addrs), ops...), " ")
+}
+
 func c11sKeyID(scope int, k string) int {
 	if scope == 1 {
-		ip := net.ParseIP(k).To4()
-		if ip == nil {
-			return -1
-		}
-		return int(ip[3])
+		return c11sKeys.KeyID(k)
 	}
 	if k == "" {
 		return 0
@@ -89,7 +146,7 @@ func (s *c11CheckState) CheckSender(ctx context.Context, from string) module.Che
 	}
 	ip := 1
 	if a, ok := s.meta.Conn.RemoteAddr.(*net.TCPAddr); ok {
-		ip = c11sKeyID(1, a.IP.String())
+		ip = vlim.MonID(c11sKeys.AddrID(a.IP)) // identity of the peer IP, not the key the code derives
 	}
 	s.ip, s.dom, s.counted = ip, c11sKeyID(2, dom), true
 	for sc, k := range []int{0, s.ip, s.dom} {
@@ -194,9 +251,7 @@ type c11SessCase struct {
 	broke   bool
 }
 
-func (c *c11SessCase) opLine() string {
-	return "C11 sess " + c.cfg.String() + " " + strings.Join(c.ops, " ")
-}
+func (c *c11SessCase) opLine() string { return c11sLine("sess", c.cfg, c.ops) }
 
 func (c *c11SessCase) waitSessions(n int32) {
 	dl := time.Now().Add(20 * time.Second)
@@ -234,7 +289,7 @@ func (c *c11SessCase) exec(op string) bool {
 	switch f[0] {
 	case "o":
 		ip, _ := strconv.Atoi(f[2])
-		d := net.Dialer{LocalAddr: &net.TCPAddr{IP: net.IPv4(127, 0, 0, byte(ip))}, Timeout: 10 * time.Second}
+		d := net.Dialer{LocalAddr: &net.TCPAddr{IP: c11sV4(ip)}, Timeout: 10 * time.Second}
 		conn, err := d.Dial("tcp", "127.0.0.1:"+c.port)
 		if err != nil {
 			c.out.Note("dial: " + err.Error())
@@ -384,6 +439,11 @@ func c11SessRun(out *vh.Out, t *testing.T, cfg vlim.Cfg, def bool, r *vh.Rng, fi
 		nodes = append(nodes, config.Node{Name: "defer_sender_reject", Args: []string{"no"}})
 	}
 	endp, port, err := c11Endpoint(t, tgt, chk, nodes)
+	if err == nil {
+		if port, err = c11sServe(endp); err != nil {
+			endp.Close()
+		}
+	}
 	if err != nil {
 		out.Stat("sess:endpoint-error")
 		out.Note("cannot start endpoint: " + err.Error())
@@ -400,6 +460,7 @@ func c11SessRun(out *vh.Out, t *testing.T, cfg vlim.Cfg, def bool, r *vh.Rng, fi
 		defB = "1"
 	}
 	if fixed != nil {
+		fixed = vlim.StripKeyTokens(fixed)
 		for _, op := range fixed {
 			if !c.exec(op) {
 				c.broke = true
@@ -410,6 +471,10 @@ func c11SessRun(out *vh.Out, t *testing.T, cfg vlim.Cfg, def bool, r *vh.Rng, fi
 		nOps := 8 + r.Intn(22)
 		nextSid := 1
 		nDom := 1 + r.Intn(3)
+		pool := vlim.AddrPool(r.Intn, 2+r.Intn(3))
+		for _, a := range pool {
+			out.Stat("sess:addr:" + vlim.AddrClass(a))
+		}
 		for i := 0; i < nOps && !c.broke; i++ {
 			var sids []int
 			for s := 1; s < nextSid; s++ {
@@ -418,7 +483,7 @@ func c11SessRun(out *vh.Out, t *testing.T, cfg vlim.Cfg, def bool, r *vh.Rng, fi
 				}
 			}
 			if len(sids) == 0 || (len(sids) < 4 && r.Chance(18)) {
-				op := fmt.Sprintf("o.%d.%d.%s", nextSid, 1+r.Intn(3), defB)
+				op := fmt.Sprintf("o.%d.%d.%s", nextSid, pool[r.Intn(len(pool))], defB)
 				nextSid++
 				if !c.exec(op) {
 					c.broke = true
@@ -515,10 +580,18 @@ func c11SessRun(out *vh.Out, t *testing.T, cfg vlim.Cfg, def bool, r *vh.Rng, fi
 	if n == 0 {
 		n = 2
 	}
+	capIP := net.IPv4(127, 0, 0, 1) // the address of the first session of the op line
+	for _, o := range c.ops {
+		if f := strings.Split(o, "."); f[0] == "o" && len(f) > 2 {
+			a, _ := strconv.Atoi(f[2])
+			capIP = vlim.Addr(a, c11sV4)
+			break
+		}
+	}
 	got := 0
 	for i := 0; i < n; i++ {
 		err, _, p := vlim.RunCtx(context.Background(), func(ctx context.Context) error {
-			return g.TakeMsg(ctx, net.IPv4(127, 0, 0, 1), "d1.example")
+			return g.TakeMsg(ctx, capIP, "d1.example")
 		})
 		if err != nil || p != nil {
 			out.Violation("C11/quiescent-capacity", c.opLine(), fmt.Sprintf("after every session ended TakeMsg #%d of %d: err=%v panic=%v", i+1, n, err, p))
@@ -527,7 +600,7 @@ func c11SessRun(out *vh.Out, t *testing.T, cfg vlim.Cfg, def bool, r *vh.Rng, fi
 		got++
 	}
 	for i := 0; i < got; i++ {
-		g.ReleaseMsg(net.IPv4(127, 0, 0, 1), "d1.example")
+		g.ReleaseMsg(capIP, "d1.example")
 	}
 	out.Stat("sess:quiescent-checked")
 }
@@ -545,8 +618,9 @@ func TestVerifC11Session(t *testing.T) {
 			if err != nil {
 				t.Fatal(err)
 			}
-			def := strings.HasSuffix(f[3], ".1")
-			c11SessRun(out, t, cfg, def, vh.NewRng(1), append([]string{}, f[3:]...))
+			ops := vlim.StripKeyTokens(f[3:])
+			def := len(ops) > 0 && strings.HasSuffix(ops[0], ".1")
+			c11SessRun(out, t, cfg, def, vh.NewRng(1), ops)
 		}
 		return
 	}
@@ -599,12 +673,21 @@ func c11SessConcCase(out *vh.Out, t *testing.T, cfg vlim.Cfg, seed uint64, worke
 		nodes = append(nodes, config.Node{Name: "defer_sender_reject", Args: []string{"no"}})
 	}
 	endp, port, err := c11Endpoint(t, tgt, chk, nodes)
+	if err == nil {
+		if port, err = c11sServe(endp); err != nil {
+			endp.Close()
+		}
+	}
 	if err != nil {
 		out.Stat("sessconc:endpoint-error")
 		out.Note("cannot start endpoint: " + err.Error())
 		return
 	}
 	endp.limits = g
+	pool := vlim.AddrPool(vh.NewRng(seed*31+5).Intn, 3)
+	for _, a := range pool {
+		out.Stat("sessconc:addr:" + vlim.AddrClass(a))
+	}
 	var wg sync.WaitGroup
 	var mailOK, mailLimit, ended [1]int64
 	var cmu sync.Mutex
@@ -613,7 +696,7 @@ func c11SessConcCase(out *vh.Out, t *testing.T, cfg vlim.Cfg, seed uint64, worke
 		go func(w int) {
 			defer wg.Done()
 			r := vh.NewRng(seed*131 + uint64(w))
-			d := net.Dialer{LocalAddr: &net.TCPAddr{IP: net.IPv4(127, 0, 0, byte(1+r.Intn(3)))}, Timeout: 20 * time.Second}
+			d := net.Dialer{LocalAddr: &net.TCPAddr{IP: c11sV4(pool[r.Intn(3)])}, Timeout: 20 * time.Second}
 			conn, err := d.Dial("tcp", "127.0.0.1:"+port)
 			if err != nil {
 				out.Stat("sessconc:dial-error")
